@@ -740,7 +740,10 @@ static void run_line(char *line)
 		int both = (na > 3 && !strcmp(a[3], "both"));
 		s->both = both;
 		LIB_ENTER(sid);
-		of_status_t st = of_create_codec_instance(&s->ses, (of_codec_id_t)s->codec, both ? OF_ENCODER_AND_DECODER : s->role == 1 ? OF_ENCODER : OF_DECODER, 0);
+		/* "v1" / "v2": the verbosity argument (a process-wide setting of the library, overwritten by each create) */
+		unsigned verb = 0;
+		for (int q = 3; q < na; q++) if (a[q][0] == 'v' && a[q][1] >= '0' && a[q][1] <= '9') verb = (unsigned)atoi(a[q] + 1);
+		of_status_t st = of_create_codec_instance(&s->ses, (of_codec_id_t)s->codec, both ? OF_ENCODER_AND_DECODER : s->role == 1 ? OF_ENCODER : OF_DECODER, verb);
 		LIB_LEAVE();
 		jb_printf("{\"e\":\"Create\",\"x\":%ld,\"s\":%d,\"codec\":%d,\"role\":\"%s\",\"both\":%d,\"null\":%d", g_exec, sid, s->codec, s->role == 1 ? "enc" : "dec", both, s->ses == NULL);
 		if (s->ses && st == OF_STATUS_OK) {
